@@ -412,7 +412,10 @@ Fixpoint flatten (x : cbor) : cbor :=
   | CTag t y => CTag t (flatten y)
   | y => y
   end.
-Definition loads (bs : bytes) : option cbor := option_map flatten (decode bs).
+(* decoding fuel: 3 * length suffices for every well-formed item (CodecBytes.sz_bound) *)
+Definition decode3 (bs : bytes) : option cbor :=
+  match dec (3 * length bs) bs with Some (x, []) => Some x | _ => None end.
+Definition loads (bs : bytes) : option cbor := option_map flatten (decode3 bs).
 
 Definition fuel : nat := 64.
 Definition to_cbor (S : schema) (v : pv) : res bytes := do p <- to_prim S fuel v; Ok (enc p).
